@@ -166,7 +166,8 @@ CLAIMS['C18'] = {
             'replies with their status; response constructors store status/body/content type; the dispatcher is an '
             'abstract callable returning None or (text, codes) (its own contract is C01); endpoint routing and prefixes '
             'are not under contract; violations are accompanied by a native witness search through the framework test '
-            'clients',
+            'clients, which also runs on every check as the BOUNDED stand-in http_integrations_native (90 requests: 3 '
+            'integrations x accepted / refused media types x 5 bodies, recording status-by-error function)',
 }
 CLAIMS['C13'] = {
     'text': 'Frame conditions of the whole server-side chain dispatch() -> _handle_request -> _handle_rpc_request -> '
